@@ -101,7 +101,7 @@ func c12Cases(tier string) []Case {
 
 func init() {
 	Register(&Check{
-		ID: "C12", Title: "never panics, fails atomically with a typed error", PanicViolates: true,
+		ID: "C12", SelfTest: true, Title: "never panics, fails atomically with a typed error", PanicViolates: true,
 		Files: append(apiFiles, hf("", "zz_verif_c10.go"), hf("", "zz_verif_c11.go"), hf("", "zz_verif_c12.go")), LoadPkgs: apiLoad, InitPkgs: apiInit,
 		Cases: c12Cases,
 		Bounds: stdBounds(
